@@ -16,7 +16,7 @@ import (
 // C18 — templates are addressable by relative name; a bad file fails loading cleanly.
 
 type c18Case struct {
-	Mode    string `json:"mode"` // tree | fault
+	Mode    string `json:"mode"`            // tree | fault
 	Files   []int  `json:"files,omitempty"` // tree: indices into the candidate list
 	Ext     int    `json:"ext,omitempty"`
 	Spell   int    `json:"spell,omitempty"`
@@ -162,7 +162,7 @@ func c18CheckTree(cs c18Case) (ok bool, sig, expected, observed string) {
 
 type c18Base struct {
 	files map[string]string
-	pages map[string]string // page name -> expected output
+	pages map[string]string   // page name -> expected output
 	uses  map[string][]string // file -> pages that depend on it (as layout / component)
 }
 
@@ -170,29 +170,29 @@ func c18Bases() []c18Base {
 	return []c18Base{
 		{
 			files: map[string]string{
-				"index.tw":      "@use(\"lay\")\n@insert(\"title\", \"T\")\n@insert(\"body\")<b>{{ 1 + 1 }}</b>@component(\"comp\", {a: 3})@end",
-				"lay.tw":        "<html>@reserve(\"title\")|@reserve(\"body\")</html>",
-				"comp.tw":       "<c>{{ a }}@slot</c>",
-				"other.tw":      "other {{ \"x\" }}",
-				"sub/page.tw":   "@if(true)sub@end",
+				"index.tw":    "@use(\"lay\")\n@insert(\"title\", \"T\")\n@insert(\"body\")<b>{{ 1 + 1 }}</b>@component(\"comp\", {a: 3})@end",
+				"lay.tw":      "<html>@reserve(\"title\")|@reserve(\"body\")</html>",
+				"comp.tw":     "<c>{{ a }}@slot</c>",
+				"other.tw":    "other {{ \"x\" }}",
+				"sub/page.tw": "@if(true)sub@end",
 			},
 			pages: map[string]string{"index": "<html>T|<b>2</b><c>3</c></html>", "other": "other x", "sub/page": "sub"},
 			uses:  map[string][]string{"lay.tw": {"index"}, "comp.tw": {"index"}},
 		},
 		{
 			files: map[string]string{
-				"a.tw":              "@component(\"~card\", {t: \"A\"})@slot(\"s\")body@end@end",
+				"a.tw":               "@component(\"~card\", {t: \"A\"})@slot(\"s\")body@end@end",
 				"components/card.tw": "[{{ t }}:@slot(\"s\")]",
-				"b.tw":              "@each(v in [1, 2]){{ v }}@end",
+				"b.tw":               "@each(v in [1, 2]){{ v }}@end",
 			},
 			pages: map[string]string{"a": "[A:body]", "b": "12"},
 			uses:  map[string][]string{"components/card.tw": {"a"}},
 		},
 		{
 			files: map[string]string{
-				"p.tw":           "@use(\"~main\")@insert(\"c\"){{-- note --}}P@end",
+				"p.tw":            "@use(\"~main\")@insert(\"c\"){{-- note --}}P@end",
 				"layouts/main.tw": "<m>\n@reserve(\"c\")\n</m>",
-				"q.tw":           "{{ x = 5 }}{{ x }}",
+				"q.tw":            "{{ x = 5 }}{{ x }}",
 			},
 			pages: map[string]string{"p": "<m>\nP\n</m>", "q": "5"},
 			uses:  map[string][]string{"layouts/main.tw": {"p"}},
